@@ -246,6 +246,13 @@ TBase(a, b, c) == [s \in Shards |-> [r \in TRows |->
     ELSE IF s = c THEN (IF r = 1 THEN 2 ELSE IF r = 3 THEN 3 ELSE 0) ELSE 0]]
 TCat(d) == CASE d % 3 = 1 -> TBase(0, 1, 2) [] d % 3 = 2 -> TBase(2, 0, 1) [] OTHER -> TBase(1, S - 1, 0)
 
+\* ------------------------------------------------------------ GroupBy with limit and offset
+\* offset and limit select from the merged group list of the whole cluster: the answer is the
+\* unpaged list sliced [o, o + l), whichever node coordinates and however the shards are grouped
+PageOf(q, l, o) == IF o >= Len(q) THEN << >> ELSE SubSeq(q, o + 1, IF o + l < Len(q) THEN o + l ELSE Len(q))
+GroupPages == LET all == AnsGroup(sd, Shards, R * G) IN
+    {[l |-> l, o |-> o, page |-> PageOf(all, l, o)] : l \in 1..2, o \in 1..3}
+
 \* ------------------------------------------------------------ expected final result
 \* from the partial results, by definition (not by folding)
 ExpectPartsP(PP, k, l) ==
@@ -354,7 +361,8 @@ Derive ==
     /\ phase = "choose" /\ lim > 0 /\ DataChosen
     /\ part' = IF Mode = "data" THEN [s \in Shards |-> [k \in KS |-> Ans(k, sd, {s}, lim)]] ELSE part
     /\ exv' = [expect |-> [k \in KS |-> Expect(k)], data |-> IF Mode = "data" THEN DataCols ELSE {},
-               topn |-> IF Mode = "data" THEN TopNExpect ELSE << >>]
+               topn |-> IF Mode = "data" THEN TopNExpect ELSE << >>,
+               pages |-> IF Mode = "data" THEN GroupPages ELSE {}]
     /\ phase' = "place"
     /\ UNCHANGED <<kut, sd, tc, lim, nn, owner, coord, nacc, ngot, ndone, cacc, cgot, hist>>
 
@@ -368,7 +376,7 @@ Place ==
          /\ cacc' = [k \in KS |-> Ident(k)]
          /\ hist' = Append(hist, [op |-> "Place", nodes |-> n, owner |-> [i \in 1..S |-> o[i-1]],
                                   coord |-> co, lim |-> lim, data |-> exv.data, expect |-> exv.expect,
-                                  topn |-> exv.topn])
+                                  topn |-> exv.topn, pages |-> exv.pages])
     /\ phase' = "run" /\ ndone' = {} /\ cgot' = {}
     /\ UNCHANGED <<kut, sd, tc, part, exv, lim>>
 
